@@ -929,6 +929,8 @@ class Bus(Component):
         self.trafo_failed = False
         self.remaining_outage_time = Time(0)
         self.acc_outage_time = Time(0)
+        self.avg_outage_time = Time(0)
+        self.avg_fail_rate = 0
         self.reset_load_and_prod_attributes()
         self.cost = 0  # cost
         self.clear_energy_shed_stack()
